@@ -532,7 +532,7 @@ def emit_fn(out, entry, mode, stats, canary=False):
             hdr = m.group(2)
             move = ""
             prelude = ""
-            mp = re.match(r"pat=(\w+)\s+(.*)$", hdr)
+            mp = re.match(r"pat=(\w+|\([\w,]+\))\s+(.*)$", hdr)
             if mp:
                 # N14: Verus accepts only variables as closure parameters: `|PAT| body` => `|v: T| { let PAT = v; body }`
                 hdr = mp.group(2)
@@ -545,7 +545,7 @@ def emit_fn(out, entry, mode, stats, canary=False):
                         bar2 = x
                         break
                 orig = "".join(t.text for t in toks[c0 + 1:bar2]).strip()
-                prelude = f"let {orig} = {mp.group(1)}; "
+                prelude = f"let ({orig}) = {mp.group(1)}; " if mp.group(1).startswith("(") else f"let {orig} = {mp.group(1)}; "
                 stats.count("N14")
             edits.append((c0, c1 + 1, move + hdr + "\n" + b.text().rstrip("\n") + "\n", vc_origin(b)))
             if not block:
